@@ -681,12 +681,33 @@ func (p *Parser) parseEnumValue() (ref int, pos position.Position) {
 	return p.document.AddEnumValue(enum), value.TextPosition
 }
 
+// mustBeTerminatedString reports a quoted string that does not end with a closing quote:
+// the lexer also ends a quoted string at a line break and at the end of the input
+func (p *Parser) mustBeTerminatedString(tok token.Token) {
+	if tok.Keyword != keyword.STRING || p.report.HasErrors() {
+		return
+	}
+	if end := int(tok.Literal.End); end < p.document.Input.Length && p.document.Input.RawBytes[end] == '"' {
+		return
+	}
+	p.report.AddExternalError(operationreport.ExternalError{
+		Message: "unterminated string",
+		Locations: []operationreport.Location{
+			{
+				Line:   tok.TextPosition.LineStart,
+				Column: tok.TextPosition.CharStart,
+			},
+		},
+	})
+}
+
 func (p *Parser) parseStringValue() (ref int, pos position.Position) {
 	value := p.read()
 	if value.Keyword != keyword.STRING && value.Keyword != keyword.BLOCKSTRING {
 		p.errUnexpectedToken(value, keyword.STRING, keyword.BLOCKSTRING)
 		return ast.InvalidRef, position.Position{}
 	}
+	p.mustBeTerminatedString(value)
 	stringValue := ast.StringValue{
 		Content:     value.Literal,
 		BlockString: value.Keyword == keyword.BLOCKSTRING,
@@ -925,6 +946,7 @@ func (p *Parser) ParseType() (ref int) {
 
 func (p *Parser) parseDescription() ast.Description {
 	tok := p.read()
+	p.mustBeTerminatedString(tok)
 	return ast.Description{
 		IsDefined:     true,
 		Content:       tok.Literal,
